@@ -206,7 +206,7 @@ def builder_cases():
         sigs = [Sym("sg%d" % i, 71 + i) for i in range(k)]
         add("multisig_script_sig", {"sigs": [s.t for s in sigs]}, sigs, tm.cat([op("OP_0")] + [push(s) for s in sigs]), "%d sigs" % k)
     for v in range(0, 17):
-        for n in ((20, 32) if v == 0 else (2, 20, 32, 40)):
+        for n in ((20, 32) if v == 0 else (2, 20, 32, 33, 40)):  # 33: a program that could be mistaken for a compressed public key
             h = Sym("pk_hash", n)
             wp = tm.cat([op("OP_%d" % v), push(h)])
             add("p2wpkh_script_pubkey", {"pk_hash": h.t, "witness_version": v}, [h], wp, "v%d program %d" % (v, n))
@@ -252,7 +252,8 @@ def run(ctx):
     # no hidden state: what this property is about keeps nothing at module level between calls (memo tables keyed by less than
     # the value depends on, caches of the outside world, counters) -- a verdict on one call must hold for every later call
     from .. import rules as _rules
-    _rules.check_hidden_state(ctx, 'C13.6', ['bits.script.utils.script', 'bits.script.utils.decode_script', 'bits.script.utils.p2pkh_script_pubkey', 'bits.script.utils.multisig_script_pubkey'])
+    _builders = sorted({SU + fn for fn, _a, _s, _w, _l in builder_cases()})
+    _rules.check_hidden_state(ctx, 'C13.6', ['bits.script.utils.script', 'bits.script.utils.decode_script'] + [q for q in _builders if q.rsplit('.', 1)[-1] in ctx.prog.module('bits.script.utils').functions])
     check_push_selection(ctx)
     check_reader(ctx)
     c05.check_witness(ctx, "C13.3")
